@@ -189,3 +189,489 @@ Proof.
     apply Nat.eqb_eq in H1; apply Z.eqb_eq in H2; subst; auto.
 Qed.
 
+Lemma fail_from_inv t l n k cl' : nth_error (fail_from n t l) k = Some cl' ->
+  exists cl, nth_error l k = Some cl /\ pc cl' = pc cl /\ cancelled cl' = cancelled cl /\ armed cl' = armed cl /\
+             ((box cl' = box cl /\ holder_in (n + k) t = false) \/ (box cl' = Some RErr /\ holder_in (n + k) t = true)).
+Proof.
+  rewrite nth_fail_from. destruct (nth_error l k) as [cl|]; [|discriminate]. cbn [option_map].
+  destruct (holder_in (n + k) t) eqn:E; intros H; injection H as <-; exists cl; cbn; auto 8.
+Qed.
+
+Lemma cancel_from_inv cs l n k cl' : nth_error (cancel_from n cs l) k = Some cl' ->
+  exists cl, nth_error l k = Some cl /\ pc cl' = pc cl /\ box cl' = box cl /\ armed cl' = armed cl /\
+             (cancelled cl' = cancelled cl \/ cancelled cl' = true).
+Proof.
+  rewrite nth_cancel_from. destruct (nth_error l k) as [cl|]; [|discriminate]. cbn [option_map].
+  destruct (mem_nat (n + k) cs); intros H; injection H as <-; exists cl; cbn; auto 8.
+Qed.
+
+Ltac from_inv :=
+  repeat match goal with
+  | Hc : nth_error (fail_from _ _ _) _ = Some _ |- _ =>
+      apply fail_from_inv in Hc; let cl := fresh "ocl" in destruct Hc as (cl & Hc & ? & ? & ? & ?)
+  | Hc : nth_error (cancel_from _ _ _) _ = Some _ |- _ =>
+      apply cancel_from_inv in Hc; let cl := fresh "ocl" in destruct Hc as (cl & Hc & ? & ? & ? & ?)
+  end.
+
+Lemma refs_ok_step g st l st' : refs_ok st -> step g st l = Some st' -> refs_ok st'.
+Proof.
+  intros I H. unfold refs_ok in *.
+  destruct l; try destruct w; step_cases' H; intros xk xcl xc xi Hc Ha; unfold exit_update in *; norm; from_inv;
+    rewrite ?length_upd, ?app_length; cbn [length].
+  all: try (apply (I _ _ _ _ Hc Ha); fail).
+  all: try (pose proof (I _ _ _ _ Hc Ha); lia).
+  all: pc_rw.
+  all: try (match goal with E : nth_error (callers _) _ = Some ?c |- _ => apply (I _ _ _ xi E); pc_rw; exact Ha end; fail).
+  all: try discriminate.
+  all: apply active_on_inv in Ha; destruct Ha as [Ha|[Ha|Ha]]; inversion Ha; subst; clear Ha.
+  all: try (eapply nth_some_lt; eassumption).
+  all: try lia.
+  all: try (match goal with E : nth_error (callers _) _ = Some ?c, Ep : pc ?c = _ |- _ => apply (I _ _ _ xi E); rewrite Ep; cbn; rewrite Nat.eqb_refl, Z.eqb_refl; reflexivity end; fail).
+  all: try (match goal with Hc : nth_error (callers _) _ = Some ?o, Hp : pc _ = pc ?o |- _ => apply (I _ _ _ xi Hc); rewrite <- Hp; pc_rw; cbn; rewrite Nat.eqb_refl, Z.eqb_refl; reflexivity end; fail).
+Qed.
+
+Definition dist_ok (st : state) : Prop :=
+  forall k1 k2 cl1 cl2 c i, nth_error (callers st) k1 = Some cl1 -> nth_error (callers st) k2 = Some cl2 ->
+    active_on c i (pc cl1) = true -> active_on c i (pc cl2) = true -> k1 = k2.
+
+Lemma active_on_same c i c' i' p : active_on c i p = true -> active_on c' i' p = true -> c = c' /\ i = i'.
+Proof.
+  intros H1 H2. apply active_on_inv in H1. apply active_on_inv in H2.
+  destruct H1 as [H1|[H1|H1]]; subst p; destruct H2 as [H2|[H2|H2]]; inversion H2; auto.
+Qed.
+
+Lemma dist_ok_step g st l st' : refs_ok st -> dist_ok st -> no_reuse_step g st l = true ->
+  step g st l = Some st' -> dist_ok st'.
+Proof.
+  intros R I G H. unfold dist_ok in *.
+  destruct l; try destruct w; step_cases' H; intros k1 k2 cl1 cl2 xc xi H1 H2 A1 A2; unfold exit_update in *; norm; from_inv.
+  all: try (apply (I _ _ _ _ _ _ H1 H2 A1 A2); fail).
+  all: try reflexivity.
+  all: pc_rw; proj_simpl; try discriminate.
+  all: try (match goal with Ha : pc ?x = pc ?o, A : active_on _ _ (pc ?x) = true |- _ => rewrite Ha in A end).
+  all: try (match goal with Ha : pc ?x = pc ?o, A : active_on _ _ (pc ?x) = true |- _ => rewrite Ha in A end).
+  all: try (eapply I; eassumption).
+  all: match goal with A : active_on _ _ (CAlloc _ _) = true |- _ => apply active_on_inv in A; destruct A as [A|[A|A]]; inversion A; subst; clear A
+                   | A : active_on _ _ (CStored _ _) = true |- _ => apply active_on_inv in A; destruct A as [A|[A|A]]; inversion A; subst; clear A
+                   | A : active_on _ _ (CEnq _ _) = true |- _ => apply active_on_inv in A; destruct A as [A|[A|A]]; inversion A; subst; clear A end.
+  all: try (exfalso; cbn [no_reuse_step] in G; rewrite E0, E2 in G; rewrite forallb_forall in G;
+            match goal with Hx : nth_error (callers _) _ = Some ?cl, A : active_on _ _ (pc ?cl) = true |- _ =>
+              specialize (G _ (nth_error_In _ _ Hx)); rewrite A in G; discriminate end).
+  all: try (exfalso; match goal with Hx : nth_error (callers _) _ = Some ?cl, A : active_on _ _ (pc ?cl) = true |- _ =>
+              pose proof (R _ _ _ _ Hx A); lia end).
+  all: try (match goal with Hx : nth_error (callers _) ?k1 = Some ?cl, A : active_on ?c ?i (pc ?cl) = true, E : nth_error (callers _) ?k = Some ?c', Ep : pc ?c' = _ |- ?k1 = ?k =>
+              apply (I _ _ _ _ c i Hx E A); rewrite Ep; cbn; rewrite Nat.eqb_refl, Z.eqb_refl; reflexivity end).
+  all: try (symmetry; match goal with Hx : nth_error (callers _) ?k1 = Some ?cl, A : active_on ?c ?i (pc ?cl) = true, E : nth_error (callers _) ?k = Some ?c', Ep : pc ?c' = _ |- ?k1 = ?k =>
+              apply (I _ _ _ _ c i Hx E A); rewrite Ep; cbn; rewrite Nat.eqb_refl, Z.eqb_refl; reflexivity end).
+Qed.
+
+(* ------------------------------------------------------------------ a waiting caller keeps its entry *)
+Definition entry_ok (st : state) : Prop :=
+  forall k cl c i, nth_error (callers st) k = Some cl -> waiting_at (pc cl) = Some (c, i) -> box cl = None ->
+    exists cn, nth_error (conns st) c = Some cn /\ In (i, k) (ktab cn).
+
+Lemma In_a_remove_intro {A} (j k : Z) (a : A) l : In (j, a) l -> j <> k -> In (j, a) (a_remove Z.eqb k l).
+Proof.
+  induction l as [|[i b] r IH]; cbn [a_remove]; [intros []|].
+  intros [H|H] Hne.
+  - inversion H; subst. destruct (k =? j) eqn:E; [apply Z.eqb_eq in E; congruence|left; reflexivity].
+  - destruct (k =? i); [apply IH; assumption|right; apply IH; assumption].
+Qed.
+
+Lemma In_a_set_intro {A} (j k : Z) (a v : A) l : In (j, a) l -> j <> k -> In (j, a) (a_set Z.eqb k v l).
+Proof. intros H Hne. right. apply In_a_remove_intro; assumption. Qed.
+
+Lemma In_a_find_some {A} (j : Z) (a : A) l : In (j, a) l -> a_find Z.eqb j l <> None.
+Proof.
+  induction l as [|[i b] r IH]; cbn [a_find]; [intros []|].
+  intros [H|H].
+  - inversion H; subst. rewrite Z.eqb_refl. discriminate.
+  - destruct (j =? i); [discriminate|apply IH; exact H].
+Qed.
+
+Lemma waiting_active c i p : waiting_at p = Some (c, i) -> active_on c i p = true.
+Proof. destruct p; cbn; try discriminate; intros H; inversion H; subst; rewrite Nat.eqb_refl, Z.eqb_refl; reflexivity. Qed.
+
+Lemma entry_ok_step g st l st' : inv_leak st -> dist_ok st -> entry_ok st ->
+  step g st l = Some st' -> entry_ok st'.
+Proof.
+  intros L D I H. unfold entry_ok in *.
+  destruct l; try destruct w; step_cases' H; intros xk xcl xc xi Hc Hw Hb; unfold exit_update in *; norm; from_inv.
+  all: try (apply (I _ _ _ _ Hc Hw Hb); fail).
+  all: pc_rw; proj_simpl; try discriminate.
+  all: try (destruct (I _ _ _ _ Hc Hw Hb) as (cn & X1 & X2); fin; fail).
+  all: try (match goal with E : nth_error (callers _) _ = Some ?c |- _ => apply (I _ _ _ _ E); [pc_rw; congruence|congruence] end; fail).
+  all: try (exfalso; destruct (I _ _ _ _ Hc Hw Hb) as (cn & X1 & _); rewrite nth_len_none in X1; discriminate).
+  all: try (inversion Hw; subst; clear Hw).
+  all: try (exfalso; congruence).
+  all: try (eexists; split; [reflexivity|]; proj_simpl; left; reflexivity).
+  all: try (match goal with H2 : (box ?x = box ?o /\ _) \/ (box ?x = Some RErr /\ _), Hb : box ?x = None |- _ =>
+              destruct H2 as [[H2 Hh]|[H2 _]]; [|congruence]; rewrite H2 in Hb; cbn [Nat.add] in Hh end).
+  all: try (match goal with Hc : nth_error (callers _) _ = Some ?o, Hp : pc _ = pc ?o, Hw : waiting_at (pc ?o) = Some _, Hb : box ?o = None |- _ =>
+              destruct (I _ _ _ _ Hc Hw Hb) as (cn & X1 & X2); lookup_norm end).
+  all: try (eexists; split; [eassumption|assumption]).
+  all: try (eexists; split; [reflexivity|assumption]).
+  all: try (exfalso; match goal with Hh : holder_in ?k (?p :: ?t) = false, E2 : ktab _ = ?p :: ?t, X2 : In (_, ?k) _ |- _ =>
+              rewrite E2 in X2; assert (Y : holder_in k (p :: t) = true) by (apply holder_in_In; eexists; exact X2); congruence end).
+  - (* LStore: another waiter on the same connection keeps its entry *)
+    destruct (I _ _ _ _ Hc H0 Hb) as (cn & X1 & X2). lookup_norm.
+    eexists. split; [reflexivity|]. proj_simpl. apply In_a_set_intro; [exact X2|].
+    intros ->. apply Eq. apply (D _ _ _ _ c0 i Hc E (waiting_active _ _ _ H0)). rewrite E0. cbn.
+    rewrite Nat.eqb_refl, Z.eqb_refl. reflexivity.
+  - destruct (I _ _ c0 xi E) as (cn & X1 & X2); [rewrite E0; reflexivity|exact Hb|]. lookup_norm.
+    eexists. split; [reflexivity|exact X2].
+  - destruct (I _ _ _ _ Hc H0 Hb) as (cn & X1 & X2). lookup_norm.
+    eexists. split; [reflexivity|]. proj_simpl. apply In_a_remove_intro; [exact X2|].
+    intros ->. apply Eq. apply (D _ _ _ _ n z Hc E (waiting_active _ _ _ H0) (waiting_active _ _ _ E0)).
+  - destruct (I _ _ _ _ Hc H0 Hb) as (cn & X1 & X2). lookup_norm.
+    eexists. split; [reflexivity|]. proj_simpl. apply In_a_remove_intro; [exact X2|].
+    intros ->. apply Eq.
+    destruct (l_tab _ L _ _ _ _ E (MuxProofs.a_find_In _ _ _ MuxProofs.zeqb_spec _ _ _ E3)) as (cl' & Y1 & Y2 & _).
+    apply (D _ _ _ _ c z Hc Y1 (waiting_active _ _ _ H0) (waiting_active _ _ _ Y2)).
+  - destruct (I _ _ _ _ Hc H0 Hb) as (cn & X1 & X2). lookup_norm.
+    eexists. split; [reflexivity|]. proj_simpl. apply In_a_remove_intro; [exact X2|].
+    intros ->. apply (In_a_find_some _ _ _ X2). assumption.
+Qed.
+
+(* ------------------------------------------------------------------ C10_no_stuck_caller *)
+Record inv_all (st : state) : Prop := {
+  a_leak : inv_leak st;
+  a_watch : inv_watch st;
+  a_refs : refs_ok st;
+  a_dist : dist_ok st;
+  a_entry : entry_ok st;
+  a_clean : clean_ok st
+}.
+
+Lemma inv_all_init ts : inv_all (init ts).
+Proof.
+  split.
+  - apply inv_leak_init.
+  - apply inv_watch_init.
+  - intros k cl c i H A. cbn in H. apply nth_map_init in H. destruct H as [H _]. rewrite H in A. discriminate.
+  - intros k1 k2 cl1 cl2 c i H1 _ A. cbn in H1. apply nth_map_init in H1. destruct H1 as [H1 _]. rewrite H1 in A. discriminate.
+  - intros k cl c i H W. cbn in H. apply nth_map_init in H. destruct H as [H _]. rewrite H in W. discriminate.
+  - apply clean_ok_init.
+Qed.
+
+Lemma inv_all_step g st l st' : inv_all st -> guard_step g st l = true -> step g st l = Some st' -> inv_all st'.
+Proof.
+  intros [L W R D E C] G H. unfold guard_step in G. apply andb_true_iff in G. destruct G as [G1 G2]. split.
+  - apply (inv_leak_step _ _ _ _ L H).
+  - apply (inv_watch_step _ _ _ _ W H).
+  - apply (refs_ok_step _ _ _ _ R H).
+  - apply (dist_ok_step _ _ _ _ R D G2 H).
+  - apply (entry_ok_step _ _ _ _ L D E H).
+  - apply (clean_ok_step _ _ _ _ C G1 H).
+Qed.
+
+Lemma inv_all_run g : forall tr st st', inv_all st -> guarded (guard_step g) g st tr = true ->
+  run g st tr = Some st' -> inv_all st'.
+Proof.
+  induction tr as [|l tr IH]; intros st st' I G H; cbn [run] in H.
+  - inversion H; subst. exact I.
+  - destruct (step g st l) as [st1|] eqn:E; [|discriminate].
+    cbn [guarded] in G. rewrite E in G. apply andb_true_iff in G. destruct G as [G1 G2].
+    apply (IH st1 st' (inv_all_step _ _ _ _ I G1 E) G2 H).
+Qed.
+
+(* C10_no_stuck_caller_partial: under the two guards, a caller that waits either can complete at
+   once (its channel is full or its context is done), or its entry is in the table of a
+   connection on which somebody is still going to run rangeAndClean or Receive is still reading *)
+Theorem no_stuck_caller_partial : forall g ts tr st,
+  run g (init ts) tr = Some st -> guarded (guard_step g) g (init ts) tr = true ->
+  forall k cl c i, nth_error (callers st) k = Some cl -> waiting_at (pc cl) = Some (c, i) ->
+    box cl <> None \/ cancelled cl = true \/
+    exists cn, nth_error (conns st) c = Some cn /\ In (i, k) (ktab cn) /\
+               (closer_pending st c cn = true \/ listening cn = true).
+Proof.
+  intros g ts tr st H G k cl c i Hk Hw.
+  pose proof (inv_all_run g tr _ _ (inv_all_init ts) G H) as [L W R D E C].
+  destruct (box cl) as [r|] eqn:Eb; [left; discriminate|]. right. right.
+  destruct (E _ _ _ _ Hk Hw Eb) as (cn & Hc & Hin). exists cn. split; [exact Hc|]. split; [exact Hin|].
+  apply (w_watch _ W _ _ Hc). destruct (kcleaned cn) eqn:Ec; [|reflexivity].
+  rewrite (C _ _ Hc Ec) in Hin. destruct Hin.
+Qed.
+
+(* ------------------------------------------------------------------ the third alternative is a real way out *)
+Definition closer_path (w : who) (e : epc) : list label :=
+  match e with
+  | EOnExit true => [LOnExit w; LCloseSock w; LCleanTake w]
+  | ECloseSock => [LCloseSock w; LCleanTake w]
+  | EClean => [LCleanTake w]
+  | _ => []
+  end.
+
+Lemma clean_take_fails g st w c cn i k cl :
+  who_pc st w = Some EClean -> who_conn st w = Some c -> nth_error (conns st) c = Some cn ->
+  In (i, k) (ktab cn) -> nth_error (callers st) k = Some cl ->
+  exists st', step g st (LCleanTake w) = Some st' /\
+              exists cl', nth_error (callers st') k = Some cl' /\ box cl' = Some RErr /\ pc cl' = pc cl.
+Proof.
+  intros Hp Hw Hc Hin Hk. cbn [step]. rewrite Hp, Hw, Hc.
+  destruct (ktab cn) as [|p t] eqn:Et; [destruct Hin|].
+  eexists. split; [reflexivity|]. proj_simpl. rewrite nth_fail_from, Hk. cbn [option_map Nat.add].
+  assert (Hh : holder_in k (p :: t) = true) by (apply holder_in_In; exists i; exact Hin).
+  rewrite Hh. eexists. split; [reflexivity|]. cbn. auto.
+Qed.
+
+Lemma close_sock_step g st w c cn :
+  who_pc st w = Some ECloseSock -> who_conn st w = Some c -> nth_error (conns st) c = Some cn ->
+  exists st' cn', step g st (LCloseSock w) = Some st' /\ who_pc st' w = Some EClean /\ who_conn st' w = Some c /\
+                  nth_error (conns st') c = Some cn' /\ ktab cn' = ktab cn /\ callers st' = callers st.
+Proof.
+  intros Hp Hw Hc. cbn [step]. rewrite Hp, Hw, Hc.
+  destruct w as [c'|c'|j]; cbn [who_conn] in Hw.
+  - inversion Hw; subst c'. eexists _, _. split; [reflexivity|]. unfold exit_update, who_pc, who_conn. proj_simpl.
+    rewrite nth_upd, Nat.eqb_refl, Hc. proj_simpl. repeat split; reflexivity.
+  - inversion Hw; subst c'. eexists _, _. split; [reflexivity|]. unfold exit_update, who_pc, who_conn. proj_simpl.
+    rewrite nth_upd, Nat.eqb_refl, Hc. proj_simpl. repeat split; reflexivity.
+  - destruct (nth_error (aborters st) j) as [[c' e]|] eqn:Ea; [|discriminate]. inversion Hw; subst c'.
+    eexists _, _. split; [reflexivity|]. unfold exit_update, who_pc, who_conn. proj_simpl.
+    rewrite !nth_upd, !Nat.eqb_refl, Hc, Ea. proj_simpl. repeat split; reflexivity.
+Qed.
+
+Lemma on_exit_step g st w c cn :
+  (forall j, w <> WA j) ->
+  who_pc st w = Some (EOnExit true) -> who_conn st w = Some c -> nth_error (conns st) c = Some cn ->
+  exists st' cn', step g st (LOnExit w) = Some st' /\ who_pc st' w = Some ECloseSock /\ who_conn st' w = Some c /\
+                  nth_error (conns st') c = Some cn' /\ ktab cn' = ktab cn /\ callers st' = callers st.
+Proof.
+  intros Hn Hp Hw Hc.
+  destruct w as [c'|c'|j]; [| |exfalso; apply (Hn j); reflexivity]; cbn [step]; rewrite Hp, Hw, Hc; cbn [who_conn] in Hw.
+  - inversion Hw; subst c'.
+    destruct (match pool st with Some c' => Nat.eqb c' c | None => false end);
+      (eexists _, _; split; [reflexivity|]; unfold exit_update, who_pc, who_conn; proj_simpl;
+       rewrite nth_upd, Nat.eqb_refl, Hc; proj_simpl; repeat split; reflexivity).
+  - inversion Hw; subst c'.
+    destruct (match pool st with Some c' => Nat.eqb c' c | None => false end);
+      (eexists _, _; split; [reflexivity|]; unfold exit_update, who_pc, who_conn; proj_simpl;
+       rewrite nth_upd, Nat.eqb_refl, Hc; proj_simpl; repeat split; reflexivity).
+Qed.
+
+(* whoever is going to run rangeAndClean gets there by its own steps and fails the caller *)
+Theorem closer_rescues : forall g st w e c cn i k cl,
+  who_pc st w = Some e -> is_closer e = true -> (forall j, w = WA j -> past_onexit e = true) ->
+  who_conn st w = Some c -> nth_error (conns st) c = Some cn ->
+  In (i, k) (ktab cn) -> nth_error (callers st) k = Some cl ->
+  exists st', run g st (closer_path w e) = Some st' /\
+              exists cl', nth_error (callers st') k = Some cl' /\ box cl' = Some RErr /\ pc cl' = pc cl.
+Proof.
+  intros g st w e c cn i k cl Hp He Ha Hw Hc Hin Hk.
+  destruct e as [[|]| | |]; try discriminate He; cbn [closer_path run].
+  - assert (Hn : forall j, w <> WA j) by (intros j ->; specialize (Ha j eq_refl); discriminate).
+    destruct (on_exit_step g st w c cn Hn Hp Hw Hc) as (st1 & cn1 & S1 & P1 & W1 & C1 & T1 & K1). rewrite S1.
+    destruct (close_sock_step g st1 w c cn1 P1 W1 C1) as (st2 & cn2 & S2 & P2 & W2 & C2 & T2 & K2). rewrite S2.
+    destruct (clean_take_fails g st2 w c cn2 i k cl P2 W2 C2) as (st3 & S3 & R3); [congruence|congruence|].
+    rewrite S3. exists st3. split; [reflexivity|exact R3].
+  - destruct (close_sock_step g st w c cn Hp Hw Hc) as (st2 & cn2 & S2 & P2 & W2 & C2 & T2 & K2). rewrite S2.
+    destruct (clean_take_fails g st2 w c cn2 i k cl P2 W2 C2) as (st3 & S3 & R3); [congruence|congruence|].
+    rewrite S3. exists st3. split; [reflexivity|exact R3].
+  - destruct (clean_take_fails g st w c cn i k cl Hp Hw Hc Hin Hk) as (st3 & S3 & R3).
+    rewrite S3. exists st3. split; [reflexivity|exact R3].
+Qed.
+
+Lemma run_app g : forall tr1 tr2 st,
+  run g st (tr1 ++ tr2) = match run g st tr1 with Some st1 => run g st1 tr2 | None => None end.
+Proof.
+  induction tr1 as [|l tr1 IH]; intros tr2 st; cbn [app run]; [reflexivity|].
+  destruct (step g st l); [apply IH|reflexivity].
+Qed.
+
+(* while Receive is reading, losing the connection fails the caller *)
+Theorem listener_rescues : forall g st c cn i k cl,
+  nth_error (conns st) c = Some cn -> listening cn = true ->
+  In (i, k) (ktab cn) -> nth_error (callers st) k = Some cl ->
+  exists path st', run g st (LPeerGone c :: path) = Some st' /\
+                   exists cl', nth_error (callers st') k = Some cl' /\ box cl' = Some RErr /\ pc cl' = pc cl.
+Proof.
+  intros g st c cn i k cl Hc Hl Hin Hk. unfold listening in Hl. apply andb_true_iff in Hl. destruct Hl as [Hcan Hr].
+  apply negb_true_iff in Hcan.
+  (* after LPeerGone and, if needed, LRecvPoll, Receive is in its read with a dead peer *)
+  assert (X : exists pre st1 cn1, run g st (LPeerGone c :: pre) = Some st1 /\ nth_error (conns st1) c = Some cn1 /\
+                kreceiver cn1 = RRead /\ kpeer_gone cn1 = true /\ ktab cn1 = ktab cn /\ callers st1 = callers st).
+  { destruct (kreceiver cn) eqn:Er; try discriminate Hr.
+    - exists [LRecvPoll c]. cbn [run step]. rewrite Hc. proj_simpl. rewrite nth_upd, Nat.eqb_refl, Hc. proj_simpl.
+      rewrite Er, Hcan. eexists _, _. split; [reflexivity|]. proj_simpl. rewrite nth_upd, Nat.eqb_refl, nth_upd, Nat.eqb_refl, Hc.
+      repeat split; reflexivity.
+    - exists []. cbn [run step]. rewrite Hc. eexists _, _. split; [reflexivity|]. proj_simpl. rewrite nth_upd, Nat.eqb_refl, Hc.
+      proj_simpl. repeat split; auto. }
+  destruct X as (pre & st1 & cn1 & R1 & C1 & Rr & Pg & T1 & K1).
+  (* LRecvFail *)
+  assert (S2 : exists st2 cn2, step g st1 (LRecvFail c) = Some st2 /\ nth_error (conns st2) c = Some cn2 /\
+                kreceiver cn2 = RExit (EOnExit true) /\ ktab cn2 = ktab cn /\ callers st2 = callers st).
+  { cbn [step]. rewrite C1, Rr, Pg, orb_true_r. eexists _, _. split; [reflexivity|]. proj_simpl.
+    rewrite nth_upd, Nat.eqb_refl, C1. proj_simpl. repeat split; auto. }
+  destruct S2 as (st2 & cn2 & S2 & C2 & R2 & T2 & K2).
+  destruct (closer_rescues g st2 (WR c) (EOnExit true) c cn2 i k cl) as (st3 & R3 & Hres); auto.
+  - unfold who_pc. rewrite C2, R2. reflexivity.
+  - intros j Hj. discriminate Hj.
+  - rewrite T2. exact Hin.
+  - rewrite K2. exact Hk.
+  - exists (pre ++ LRecvFail c :: closer_path (WR c) (EOnExit true)), st3. split; [|exact Hres].
+    change (LPeerGone c :: pre ++ LRecvFail c :: closer_path (WR c) (EOnExit true))
+      with ((LPeerGone c :: pre) ++ LRecvFail c :: closer_path (WR c) (EOnExit true)).
+    rewrite run_app, R1. cbn [run]. rewrite S2. exact R3.
+Qed.
+
+(* ------------------------------------------------------------------ C10_no_stuck_caller_refuted *)
+Definition parked : caller := {| pc := CStored 0 1; box := None; cancelled := false; armed := false |}.
+
+Definition stuck_shape (st : state) : Prop :=
+  pool st = None /\ aborters st = [] /\ callers st = [parked] /\
+  exists cn, conns st = [cn] /\ ksender cn = SExit EDone /\ kreceiver cn = RExit EDone.
+
+Definition outside_cancel (l : label) : bool :=
+  match l with LUserCancel _ | LAbortCancel => true | _ => false end.
+
+Lemma stuck_shape_step g st l st' :
+  stuck_shape st -> outside_cancel l = false -> step g st l = Some st' -> stuck_shape st'.
+Proof.
+  intros (Hp & Ha & Hk & cn & Hc & Hs & Hr) Ho H.
+  destruct l as [k|k|k|k|k|k|k|k|k|k|k|c|c|c|c|c|c n|c|w|w|w|w|c i|c| |]; try discriminate Ho;
+    try (destruct k as [|k]); try (destruct c as [|c]); try (destruct w as [[|c]|[|c]|j]);
+    cbn [step who_pc who_conn] in H; rewrite ?Hk, ?Hc, ?Hp, ?Ha in H; cbn in H; rewrite ?Hs, ?Hr in H;
+    try discriminate H;
+    try (destruct k; discriminate H); try (destruct c; discriminate H); try (destruct j; discriminate H).
+  all: try (injection H as <-; unfold stuck_shape; cbn; rewrite ?Hp, ?Ha, ?Hk, ?Hc; cbn;
+            repeat split; auto; eexists; split; [reflexivity|]; cbn; auto; fail).
+  destruct (kpeer_gone cn); [discriminate|]. injection H as <-. unfold stuck_shape. cbn. rewrite ?Hp, ?Ha, ?Hk, ?Hc. cbn.
+  repeat split; auto. eexists; split; [reflexivity|]. cbn. auto.
+Qed.
+
+Lemma stuck_shape_run g : forall tr st st', stuck_shape st -> forallb (fun l => negb (outside_cancel l)) tr = true ->
+  run g st tr = Some st' -> stuck_shape st'.
+Proof.
+  induction tr as [|l tr IH]; intros st st' S F H; cbn [run] in H.
+  - inversion H; subst. exact S.
+  - destruct (step g st l) as [st1|] eqn:E; [|discriminate]. cbn [forallb] in F. apply andb_true_iff in F.
+    destruct F as [F1 F2]. apply negb_true_iff in F1. apply (IH st1 st' (stuck_shape_step _ _ _ _ S F1 E) F2 H).
+Qed.
+
+(* C10_no_stuck_caller_refuted: after the eleven steps of the witness the caller, which has no
+   deadline, is parked in its select; and whatever the goroutines of the client and the peer do
+   from then on, as long as nobody cancels the call from outside (LUserCancel, Client.Abort), it
+   stays there: same program point, empty channel, context not done *)
+Theorem no_stuck_caller_refuted :
+  exists st, run g31 (init [false]) late_store_witness = Some st /\
+    nth_error (callers st) 0 = Some parked /\
+    forall tr st', forallb (fun l => negb (outside_cancel l)) tr = true -> run g31 st tr = Some st' ->
+      nth_error (callers st') 0 = Some parked.
+Proof.
+  eexists. split; [vm_compute; reflexivity|]. split; [reflexivity|].
+  intros tr st' F H.
+  match type of H with (run _ ?s _ = _) => assert (S : stuck_shape s) end.
+  { unfold stuck_shape. cbn. repeat split; auto. eexists. split; [reflexivity|]. cbn. auto. }
+  destruct (stuck_shape_run _ _ _ _ S F H) as (_ & _ & Hk & _). rewrite Hk. reflexivity.
+Qed.
+
+(* ------------------------------------------------------------------ goroutines of closed connections *)
+Definition returned : caller := {| pc := CDone RResp; box := None; cancelled := false; armed := false |}.
+
+(* the state after the Abort witness: every call has returned, the connection is closed and
+   cleaned, Receive is gone -- and Send sits in its select with a context nobody cancels *)
+Definition zombie_shape (st : state) : Prop :=
+  pool st = None /\ cancels st = [] /\ aborters st = [(0%nat, EDone)] /\ callers st = [returned] /\
+  exists cn, conns st = [cn] /\ ksender cn = SIdle /\ kcancel cn = false /\ kreceiver cn = RExit EDone /\ ksock cn = true.
+
+Lemma zombie_shape_step g st l st' : zombie_shape st -> step g st l = Some st' -> zombie_shape st'.
+Proof.
+  intros (Hp & Hx & Ha & Hk & cn & Hc & Hs & Hn & Hr & Hso) H.
+  destruct l as [k|k|k|k|k|k|k|k|k|k|k|c|c|c|c|c|c n|c|w|w|w|w|c i|c| |];
+    try (destruct k as [|k]); try (destruct c as [|c]); try (destruct w as [[|c]|[|c]|[|j]]);
+    cbn [step who_pc who_conn] in H; rewrite ?Hk, ?Hc, ?Hp, ?Ha, ?Hx in H; cbn in H; rewrite ?Hs, ?Hr, ?Hn in H;
+    try discriminate H;
+    try (destruct k; discriminate H); try (destruct c; discriminate H); try (destruct j; discriminate H).
+  all: try (injection H as <-; unfold zombie_shape; cbn; rewrite ?Hp, ?Ha, ?Hk, ?Hc, ?Hx; cbn;
+            repeat split; auto; eexists; split; [reflexivity|]; cbn; auto; fail).
+  destruct (kpeer_gone cn); [discriminate|]. injection H as <-. unfold zombie_shape. cbn. rewrite ?Hp, ?Ha, ?Hk, ?Hc, ?Hx. cbn.
+  repeat split; auto. eexists; split; [reflexivity|]. cbn. auto.
+Qed.
+
+Lemma zombie_shape_run g : forall tr st st', zombie_shape st -> run g st tr = Some st' -> zombie_shape st'.
+Proof.
+  induction tr as [|l tr IH]; intros st st' S H; cbn [run] in H.
+  - inversion H; subst. exact S.
+  - destruct (step g st l) as [st1|] eqn:E; [|discriminate]. apply (IH st1 st' (zombie_shape_step _ _ _ _ S E) H).
+Qed.
+
+(* C10_threads_exit_refuted: one call that succeeds, then Client.Abort: the connection is closed,
+   its table is empty, Receive has gone, every call has returned -- and the Send goroutine of the
+   closed connection is still parked in its select, and stays there whatever happens afterwards *)
+Theorem threads_exit_refuted :
+  exists st, run g31 (init [false]) abort_leak_witness = Some st /\
+    all_done st = true /\ pending_total st = 0%nat /\ sender_parked_forever st 0 = true /\
+    forall tr st', run g31 st tr = Some st' ->
+      exists cn, nth_error (conns st') 0 = Some cn /\ ksender cn = SIdle /\ ksock cn = true.
+Proof.
+  eexists. split; [vm_compute; reflexivity|]. split; [reflexivity|]. split; [reflexivity|]. split; [reflexivity|].
+  intros tr st' H.
+  match type of H with (run _ ?s _ = _) => assert (S : zombie_shape s) end.
+  { unfold zombie_shape. cbn. repeat split; auto. eexists. split; [reflexivity|]. cbn. auto. }
+  destruct (zombie_shape_run _ _ _ _ S H) as (_ & _ & _ & _ & cn & Hc & Hs & _ & _ & Hso).
+  exists cn. rewrite Hc. split; [reflexivity|]. split; [exact Hs|exact Hso].
+Qed.
+
+(* without Transport.Abort the context of Send and Receive is cancelled whenever the connection
+   leaves the pool, so both goroutines can always leave *)
+Record inv_noabort (st : state) : Prop := {
+  n_ab : aborters st = [];
+  n_pool : forall c cn, nth_error (conns st) c = Some cn -> kunpooled cn = false -> pool st = Some c;
+  n_can : forall c cn, nth_error (conns st) c = Some cn -> kunpooled cn = true -> kcancel cn = true
+}.
+
+Definition not_abort (l : label) : bool := match l with LAbortSwap => false | _ => true end.
+
+Lemma inv_noabort_step g st l st' : inv_noabort st -> not_abort l = true -> step g st l = Some st' -> inv_noabort st'.
+Proof.
+  intros [A P C] G H. split.
+  - destruct l; try destruct w; try discriminate G; step_cases' H; unfold exit_update in *; proj_simpl; try assumption.
+    all: try discriminate.
+    all: try (rewrite A in *; match goal with En : nth_error [] ?j = Some _ |- _ => destruct j; discriminate En end).
+  - destruct l; try destruct w; try discriminate G; step_cases' H; intros xc xcn Hc Hu; unfold exit_update in *; norm.
+    all: try (apply (P _ _ Hc Hu); fail).
+    all: try (match goal with E : nth_error (conns _) _ = Some ?cn |- _ => apply (P _ _ E Hu) end; fail).
+    all: try discriminate.
+    all: try reflexivity.
+    all: try (rewrite A in *; match goal with En : nth_error [] ?j = Some _ |- _ => destruct j; discriminate En end).
+    all: try (exfalso; pose proof (P _ _ Hc Hu); congruence).
+    all: try congruence.
+    all: try (eapply P; eassumption).
+    all: try (rewrite E2; apply (P _ _ Hc Hu)).
+  - destruct l; try destruct w; try discriminate G; step_cases' H; intros xc xcn Hc Hu; unfold exit_update in *; norm.
+    all: try (apply (C _ _ Hc Hu); fail).
+    all: try (match goal with E : nth_error (conns _) _ = Some ?cn |- _ => apply (C _ _ E Hu) end; fail).
+    all: try discriminate.
+    all: try reflexivity.
+    all: try (rewrite A in *; match goal with En : nth_error [] ?j = Some _ |- _ => destruct j; discriminate En end).
+    all: try (apply orb_true_r).
+    all: rewrite orb_false_r; apply (C _ _ E1); destruct (kunpooled c0) eqn:U; [reflexivity|];
+         exfalso; pose proof (P _ _ E1 U); congruence.
+Qed.
+
+Lemma inv_noabort_init ts : inv_noabort (init ts).
+Proof. split; [reflexivity| |]; intros c cn H; destruct c; discriminate. Qed.
+
+Lemma inv_noabort_run g : forall tr st st', inv_noabort st -> forallb not_abort tr = true ->
+  run g st tr = Some st' -> inv_noabort st'.
+Proof.
+  induction tr as [|l tr IH]; intros st st' I F H; cbn [run] in H.
+  - inversion H; subst. exact I.
+  - destruct (step g st l) as [st1|] eqn:E; [|discriminate]. cbn [forallb] in F. apply andb_true_iff in F.
+    destruct F as [F1 F2]. apply (IH st1 st' (inv_noabort_step _ _ _ _ I F1 E) F2 H).
+Qed.
+
+(* C10_threads_exit_partial: in runs without Transport.Abort, once the client has closed the socket
+   of a connection the context of its Send and Receive goroutines is cancelled: a Send that sits in
+   its select has its ctx.Done() branch enabled *)
+Theorem threads_exit_partial : forall g ts tr st,
+  run g (init ts) tr = Some st -> forallb not_abort tr = true ->
+  forall c cn, nth_error (conns st) c = Some cn -> ksock cn = true ->
+    kcancel cn = true /\ (ksender cn = SIdle -> exists st', step g st (LSendCtx c) = Some st').
+Proof.
+  intros g ts tr st H F c cn Hc Hs.
+  pose proof (inv_noabort_run g tr _ _ (inv_noabort_init ts) F H) as [A P C].
+  pose proof (inv_pool_run g tr _ _ (inv_pool_init ts) H) as I.
+  assert (Hk : kcancel cn = true) by (apply (C _ _ Hc); apply (proj1 (p_sock _ I _ _ Hc) Hs)).
+  split; [exact Hk|]. intros Hi. cbn [step]. rewrite Hc, Hi, Hk. eexists. reflexivity.
+Qed.
